@@ -3,7 +3,6 @@
 package main
 
 import (
-	"strings"
 	"bytes"
 	"context"
 	"crypto"
@@ -14,6 +13,7 @@ import (
 	"net"
 	"os"
 	"path/filepath"
+	"strings"
 	"sync"
 	"time"
 
@@ -49,6 +49,8 @@ type caServer struct {
 	PeerCerts  [][]*x509.Certificate
 	seq        *int
 	Order      []int // global sequence numbers of handler runs
+	// answer kind "hold": the request of "signer-A" announces itself on arrived and waits for gate (or its own deadline)
+	arrived, gate chan struct{}
 }
 
 func (s *caServer) PostUserSSHCertificate(ctx context.Context, req *proto.SSHCertificateSigningRequest) (*proto.SSHKey, error) {
@@ -63,7 +65,16 @@ func (s *caServer) PostUserSSHCertificate(ctx context.Context, req *proto.SSHCer
 		}
 	}
 	a := s.ans
+	arrived, gate := s.arrived, s.gate
 	s.mu.Unlock()
+	if a.Kind == "hold" && gate != nil && len(req.Principals) == 1 && req.Principals[0] == "signer-A" {
+		close(arrived)
+		select {
+		case <-gate:
+		case <-ctx.Done():
+			return nil, status.Error(codes.DeadlineExceeded, "held until the deadline")
+		}
+	}
 	switch a.Kind {
 	case "status":
 		return nil, status.Error(a.Code, "scripted status")
@@ -86,13 +97,13 @@ func (s *caServer) reset() {
 
 // pki holds the X.509 material of the farm.
 type pki struct {
-	dir                      string
-	ca1, ca2, foreign, cca   *x509.Certificate
-	ca1k, ca2k, foreignk     crypto.Signer
-	ccak                     crypto.Signer
-	clientCert               tls.Certificate
-	clientLeaf               *x509.Certificate
-	ClientCertFile, ClientKeyFile string
+	dir                                     string
+	ca1, ca2, foreign, cca                  *x509.Certificate
+	ca1k, ca2k, foreignk                    crypto.Signer
+	ccak                                    crypto.Signer
+	clientCert                              tls.Certificate
+	clientLeaf                              *x509.Certificate
+	ClientCertFile, ClientKeyFile           string
 	CA1File, CA2File, BothFile, ForeignFile string
 	// the same CA certificates in other legal file layouts
 	CA1NoNLFile, PadCA1NoNLFile, BothCRLFFile string
